@@ -15,6 +15,7 @@ import Jap.Lemmas.TypingTd
 import Jap.Lemmas.TypingB64
 import Jap.Lemmas.TypingUuid
 import Jap.Lemmas.TypingText
+import Jap.Lemmas.TypingComplex
 import Jap.Gen.Registered
 
 namespace Jap.Props.C20
@@ -352,6 +353,35 @@ example : uuidDeser "{urn:uuid:12345678-1234-5678-1234-56781234567F}".toList = .
     uuidDeser "12345678-1234-5678-1234-56781234567".toList = .error .value ∧
     uuidDeser "-0000000000000000000000000000001".toList = .error .value := by decide +kernel
 
+/-! ## `complex` (on decimal tokens)
+
+A part is a sign and the token `repr` writes for the magnitude.  FLOAT ASSUMPTION (outside the model, Python's
+documented guarantee): `float(repr(x)) == x` for every float, so that equal signed tokens denote equal floats;
+under it the theorem is the round trip of every complex number whose parts are finite, infinite or nan. -/
+
+/-- every well-formed pair of parts (integral, decimal, exponent, `inf`, `nan`; both signs; zero parts, incl. the
+`<im>j` form of a `+0.0` real part and the `(-0+…j)` form of `-0.0`) is read back from its text -/
+theorem C20_complex_rt (re im : Part) (hr : re.tok.Valid) (hi : im.tok.Valid) :
+    complexParse (complexStr re im) = some (re, im) :=
+  complexParse_complexStr re im hr hi
+
+/-- the hypotheses are satisfiable by every kind of token -/
+example : (Tok.dec "12".toList [] none).Valid ∧ (Tok.dec "1".toList "5".toList none).Valid ∧
+    (Tok.dec "1".toList "5".toList (some (true, "07".toList))).Valid ∧ Tok.inf.Valid ∧ Tok.nan.Valid := by
+  refine ⟨⟨by decide, by decide, by decide, trivial⟩, ⟨by decide, by decide, by decide, trivial⟩,
+    ⟨by decide, by decide, by decide, by decide, by decide⟩, trivial, trivial⟩
+
+example : complexStr Part.zero ⟨false, .dec "2".toList [] none⟩ = "2j".toList := by decide +kernel
+example : complexStr ⟨true, .dec "0".toList [] none⟩ ⟨false, .dec "0".toList [] none⟩ = "(-0+0j)".toList := by decide +kernel
+example : complexStr ⟨false, .dec "1".toList [] (some (false, "22".toList))⟩ ⟨true, .dec "1".toList "5".toList (some (true, "07".toList))⟩
+    = "(1e+22-1.5e-07j)".toList := by decide +kernel
+example : complexStr ⟨false, .nan⟩ ⟨true, .inf⟩ = "(nan-infj)".toList := by decide +kernel
+/-- the parser as it is: blanks only outside the number, `j` alone, a missing bracket is an error -/
+example : complexParse " ( 1+2J ) ".toList = some (⟨false, .dec "1".toList [] none⟩, ⟨false, .dec "2".toList [] none⟩) ∧
+    complexParse "-j".toList = some (Part.zero, Part.one true) ∧ complexParse "1+j".toList = some (Part.one false, Part.one false) ∧
+    complexParse "(1+2j".toList = none ∧ complexParse "1 + 2j".toList = none ∧ complexParse "1e".toList = none := by
+  decide +kernel
+
 /-! ## a dumped registered value written plain is read back as a string (`C20_text_safe`)
 
 `resolveLoad` / `resolveDump` are the scalar-resolution model of engine "Scalar" (C01) over the tables
@@ -388,6 +418,15 @@ open Jap.Scalar Jap.TextSafe in
 theorem C20_text_plain_b64_padded (bs : List Nat) (h : ∀ b ∈ bs, b < 256) (hl : bs.length % 3 ≠ 0) :
     resolveLoad (String.ofList (b64encode bs)) = .str := by
   simpa [resolveLoad] using safe_of_accepts mB64Pad _ b64Pad_cert _ (b64Pad_accepts bs h hl 0 (Or.inl rfl))
+
+open Jap.Scalar Jap.TextSafe in
+/-- `str(complex)`: a plain string in both forms (`(…j)` starts with a bracket, `<im>j` contains `j`) -/
+theorem C20_text_plain_complex (re im : Part) : resolveLoad (String.ofList (complexStr re im)) = .str := by
+  unfold complexStr
+  split
+  · have := safe_of_accepts mHasJ _ hasJ_cert _ (hasJ_accepts ((if im.neg then ['-'] else []) ++ im.tok.text) [])
+    simpa [resolveLoad] using this
+  · simpa [resolveLoad] using safe_of_accepts mParen _ paren_cert _ (paren_accepts _)
 
 example : (⟨-3, 0, 5⟩ : TD).days ≠ 0 := by decide
 example : [1, 2].length % 3 ≠ 0 := by decide
